@@ -31,6 +31,9 @@ pub struct GenOpts {
     pub allow_terminal: bool,
     pub allow_dense: bool,
     pub bidirectional_problems: bool,
+    /// one case in eight with an implicit method integrates a stiff Van der Pol oscillator (mu 10..1000, forward,
+    /// random start off the limit cycle, span up to 1.5 relaxation times)
+    pub stiff_for_implicit: bool,
     pub min_span: f64,
     pub max_span: f64,
 }
@@ -50,6 +53,7 @@ impl Default for GenOpts {
             allow_terminal: false,
             allow_dense: true,
             bidirectional_problems: true,
+            stiff_for_implicit: false,
             min_span: 0.05,
             max_span: 30.0,
         }
@@ -115,6 +119,11 @@ pub fn gen_case(rng: &mut Rng, g: &GenOpts) -> (Simple, Scn) {
     } else {
         Simple::random(rng)
     };
+    let stiff_mu = if g.stiff_for_implicit && is_implicit(method) && !huge && rng.chance(0.125) { Some(rng.logu(10.0, 1000.0)) } else { None };
+    let prob = match stiff_mu {
+        Some(mu) => Simple::VdP { mu },
+        None => prob,
+    };
     let n = prob.dim();
     let y0 = prob.y0(rng);
     let x0 = match rng.below(8) {
@@ -149,7 +158,11 @@ pub fn gen_case(rng: &mut Rng, g: &GenOpts) -> (Simple, Scn) {
     if method == Method::RK4 && !huge {
         span = span.min(20.0);
     }
-    let dir = rng.sign();
+    let mut dir = rng.sign();
+    if let Some(mu) = stiff_mu {
+        span = mu * rng.range(0.05, 1.5);
+        dir = 1.0;
+    }
     let mut xend = x0 + dir * span;
     let mut scn = Scn::new(method, x0, xend, y0);
     let (rt, at) = random_tols(rng, method, n);
